@@ -23,7 +23,7 @@ RULE = ("cases: random recipes (all connectives, depth<=5, fan-out<=8, DAG shari
         "model has >=1 compound child and both truth values occurred among the judged assignments; distinct by "
         "canonical shape digest"
         ' Also: hostile twins of the base recipe run in the same process, the same definition through another class (aliases), leaves wider than 32 bits, and the bounded sweep of small formulas shared with C04.')
-BUDGET = {"quick": (12, 450, 90), "thorough": (16, 2500, 1200)}
+BUDGET = {"quick": (12, 1350, 90), "thorough": (16, 2500, 1200)}
 PYTEST = True     # thorough tier also runs the repository's own tests under these monitors
 MANDATORY = ["judged:active-iff-true", "judged:inactive-feasible", "judged:columns", "contract:AtLeast.to_ge_polyhedron", "contract:StingyConfigurator.ge_polyhedron"]
 
